@@ -261,8 +261,10 @@ def discharge(ex, o, use_alt=True, both=False, timeout_ms=None, extra=()):
     t0 = time.time()
     used = used_functions(list(o.pc) + [o.goal] + list(extra))
     axs = ex.axioms(used)
-    if 'lsum' in used:
+    if 'lsum' in used and not getattr(o, 'raw', False):
         axs = axs + calls.lsum_axioms()
+    if getattr(o, 'raw', False):     # closed library lemma: discharged WITHOUT the library axioms (they are what it justifies)
+        axs = []
     if PREPARE and sym.BOUND is None:
         body = prep.prepare_query(list(o.pc) + list(extra), z3.Not(o.goal))
     else:
@@ -287,7 +289,7 @@ def discharge(ex, o, use_alt=True, both=False, timeout_ms=None, extra=()):
             else:
                 q = sel + [z3.Not(o.goal)]
             s2.add(*ex.axioms(used_functions(sel + [o.goal])))
-            if 'lsum' in used:
+            if 'lsum' in used and not getattr(o, 'raw', False):
                 s2.add(*calls.lsum_axioms())
             s2.add(*q)
             if s2.check() == z3.unsat:
